@@ -83,6 +83,9 @@ class LZWDecoder:
                 code = self.readbits(self.nbits)
             except EOFError:
                 break
+            if code == 257:
+                # EOD: whatever follows does not belong to the data
+                break
             try:
                 x = self.feed(code)
             except CorruptDataError:
